@@ -29,7 +29,7 @@ PROPS = {
                 rule="one run = one simulated client/server connection (handshake, 1..12 data rounds, orderly close) "
                      "generated from H(VERIF_SEED, scenario, index); non-trivial = at least 3 context switches between "
                      "the endpoint tasks; distinct = distinct interleaving ids (hash of the sequence of (step, from-task, to-task) switches)"),
-    "C10": dict(level="fault_enumeration", design="4.3", memclass="foreign", cell_keys=["proto", "mutual", "kind", "dir"],
+    "C10": dict(level="fault_enumeration", design="4.3", memclass="foreign", cell_keys=["proto", "mutual", "kind", "dir"], space="hs_flip_bytes",
                 parts=[("mitm-hs", "plain", 12, 120, []), ("mitm-hs", "asan", 4, 24, [])],
                 quick_s=55, thorough_s=900, quick_max=200000, thorough_max=4000000,
                 expect_probes=["fault_fired"],
@@ -79,7 +79,8 @@ PROPS = {
                      "ECDHE shared secret, received plaintext), raw and as hex with separators removed; non-trivial = the run executed library code "
                      "that handles secrets (every run does); distinct = distinct interleaving / fault / operation-sequence ids"),
     "C06": dict(level="exploration", design="4.5", memclass="only", cell_keys=["proto", "victim", "rec"],
-                parts=[("byz", "asan", 9, 32, []), ("mitm-hs", "asan", 3, 24, []), ("mitm-data", "asan", 2, 24, []), ("auth", "asan", 1, 12, []), ("http", "asan", 1, 200, [])],
+                parts=[("byz", "asan", 9, 32, []), ("mitm-hs", "asan", 3, 24, []), ("mitm-data", "asan", 2, 24, []), ("auth", "asan", 1, 12, []), ("http", "asan", 1, 200, []),
+                       ("byz", "msan", 3, 16, [], "thorough"), ("mitm-hs", "msan", 1, 24, [], "thorough"), ("entropy", "msan", 1, 20, [], "thorough")],
                 quick_s=55, thorough_s=1200, quick_max=200000, thorough_max=4000000,
                 rule="scope: every byte stream a TLS/TLCP/TLS 1.3 client or server receives from its peer. One run = a real victim endpoint "
                      "and its real peer with the interposer acting as byzantine peer: 1..3 handshake records of one direction rewritten by seeded "
@@ -103,7 +104,7 @@ PROPS = {
                      "non-trivial = at least one preemption inside library code; distinct = distinct interleaving ids"),
 }
 
-ALL_VARIANTS = ["plain", "asan", "asan-if", "tsan-if"]
+ALL_VARIANTS = ["plain", "asan", "asan-if", "tsan-if"]      # msan is built on demand by the thorough tier of C06
 MEMCLASSES = ("hang:", "memerr:", "crash:", "state_corrupt", "no_termination")
 
 KV = re.compile(r'(\w+)=("([^"]*)"|\S+)')
@@ -173,7 +174,7 @@ class Worker(threading.Thread):
         self.chunkq, self.deadline, self.results, self.extra = chunkq, deadline, results, extra
 
     def run(self):
-        scn, variant, _, chunk, args = self.part
+        scn, variant, _, chunk, args = self.part[:5]
         exe = os.path.join(VERIF, "build", variant, "gmsim")
         while time.time() < self.deadline:
             try:
@@ -399,9 +400,6 @@ def match_known(known, prop, cls):
 def run_check(prop, tier, seed):
     cfg = PROPS[prop]
     t0 = time.time()
-    variants = sorted({p[1] for p in cfg["parts"]})
-    for v in variants:
-        B.build(v)
     budget = cfg["quick_s"] if tier == "quick" else cfg["thorough_s"]
     if os.environ.get("GMSIM_BUDGET_S"):
         budget = float(os.environ["GMSIM_BUDGET_S"])
@@ -409,10 +407,14 @@ def run_check(prop, tier, seed):
     deadline = time.time() + budget
     results = []
     workers = []
-    tot_w = sum(p[2] for p in cfg["parts"])
     wid = 0
-    for pi, part in enumerate(cfg["parts"]):
-        scn, variant, nw, chunk, args = part
+    parts = [p for p in cfg["parts"] if len(p) < 6 or p[5] == tier]
+    variants = sorted({p[1] for p in parts})
+    for v in variants:
+        B.build(v)
+    tot_w = sum(p[2] for p in parts)
+    for pi, part in enumerate(parts):
+        scn, variant, nw, chunk, args = part[:5]
         nw = max(1, round(nw * NWORKERS / tot_w))
         share = maxruns * part[2] // tot_w
         q = queue.Queue()
@@ -570,6 +572,24 @@ def write_evidence(prop, tier, seed, cfg, runs, violations, known_hits, explore_
             ex = dict(KV.findall(d.get("extra", "")) and [(m.group(1), m.group(3) if m.group(3) is not None else m.group(2)) for m in KV.finditer(d.get("extra", ""))])
             key = "/".join(ex.get(k, "?") for k in ck)
             cells[key] = cells.get(key, 0) + 1
+    # fraction of the enumerated single-fault coordinates that was hit (C10: flips over handshake payload bytes)
+    space = None
+    if cfg.get("space") == "hs_flip_bytes":
+        hit, size = {}, {}
+        for d in runs:
+            if d.get("nt") != "1":
+                continue
+            ex = {m.group(1): (m.group(3) if m.group(3) is not None else m.group(2)) for m in KV.finditer(d.get("extra", ""))}
+            if ex.get("kind") != "flip" or "hsbytes" not in ex:
+                continue
+            c = f"{ex.get('proto')}/{ex.get('mutual')}/{ex.get('depth')}"
+            size[c] = max(size.get(c, 0), int(ex["hsbytes"]))
+            hit.setdefault(c, set()).add((ex.get("dir"), ex.get("rec"), ex.get("off")))
+        tot = sum(size.values())
+        if tot:
+            space = dict(measure="distinct (config, direction, record, byte offset) positions that received a bit flip / handshake payload bytes of the configs seen",
+                         positions_hit=sum(len(v) for v in hit.values()), positions=tot,
+                         fraction=round(sum(len(v) for v in hit.values()) / tot, 4))
     samples = []
     for d in runs[:3]:
         plan = gen_plan(d["variant"], d["scn"], seed, int(d["idx"]), tier)
@@ -596,6 +616,7 @@ def write_evidence(prop, tier, seed, cfg, runs, violations, known_hits, explore_
             probes_stuck_at_zero=[k for k in pn if probes.get(k, 0) == 0 and k in cfg.get("expect_probes", [])],
             runs_by_variant=by_variant,
             runs_by_config=by_cfg,
+            space_covered=space,
             cells=dict(keys=ck, hit=len(cells), min_runs_in_a_cell=min(cells.values()) if cells else 0, counts=cells) if ck else None,
             twin_failed=sum(1 for d in runs if d.get("twinfail") == "1"),
             components=dict(
